@@ -113,9 +113,23 @@ def run(tier, seed):
     f3, n3, c3 = C03.lemmas(idx); f4, n4, c4 = C04.lemmas(idx)
     files = {}; files.update({'M' + k: v for k, v in f3.items()}); files.update({'Q' + k: v for k, v in f4.items()})
     notes = {'fma_identical_functions': same, 'fma_differing_functions': diff[:40], 'fma_differing_count': len(diff), 'C03_lemmas': n3['distinct_statements'], 'C04_lemmas': n4['distinct_statements'], 'untranslated': [], 'untranslated_count': 0}
+    # the entry points that may differ between the default and the +fma translation must be the fused primitive in BOTH (lemmas of C01)
+    from . import C01
+    fl = []; k = 0
+    for cfg in ('sse2', 'sse2+fma', 'scalar', 'coresimd'):
+        for f in idx.fns(cfg):
+            if f['name'] != 'mul_add' or tname(f['self']) not in ('Vec3A', 'Vec4') or f['generic'] or f['by_ref']: continue
+            sp = C01.spec(cfg, idx.structs(cfg), f)
+            if not isinstance(sp, dict): continue
+            k += 1; lem = core.Lemma('fma_%d' % k, sp['vars'], sp['lhs'], sp['rhs'], tactic=sp.get('tactic', 'solve_struct'), meta={'cfg': cfg, 'key': f['key'], 'file': f['file'], 'fid': f['fid'], 'did': f['did'], 'covers': ['%s:%s' % (cfg, f['key'])], 'spec': sp.get('spec', '')})
+            lem.pre = sp.get('pre'); lem.intstd = sp.get('intstd', False); lem.mode = sp.get('mode'); fl.append(lem)
+    core.LEMMA_TIMEOUT[0] = 60
+    nobf, ndf, ffail, fass = core.prove_files(core.BUILD + '/props/C07_fma', {'Fma_000': fl}, hdr=C01.HDR, footer='') if fl else (0, 0, [], {})
+    notes['mul_add_fused_lemmas'] = {'stated': nobf, 'proved': ndf}
+    fextra = [({'kind': 'unproved', 'theorem': l.name, 'statement': l.statement()[:1500], 'meta': l.meta, 'coq_error': err[-400:], 'how_found': 'mul_add must be the lane-wise fused primitive in every configuration (lemma of C01 re-proved here)'}, False) for l, err in ffail]
     stats, badx = cross_backend(idx, seed, 2 if tier == 'quick' else 6, tier)
     notes['cross_backend'] = stats
-    extra = [({'kind': 'counterexample', 'theorem': 'target-feature independence of the translated crate', 'function': k, 'how_found': 'the +fma translation of this function differs from the default translation and it is not a fused-multiply-add entry point'}, False) for k in badfma[:10]] + badx[:10]
+    extra = fextra + [({'kind': 'counterexample', 'theorem': 'target-feature independence of the translated crate', 'function': k, 'how_found': 'the +fma translation of this function differs from the default translation and it is not a fused-multiply-add entry point'}, False) for k in badfma[:10]] + badx[:10]
     return f1.run('C07', tier, seed, idx, info, t0, files, notes, c3 + c4, alg.BOILER, 2,
         'table comparison of the default and +fma translations (%d identical definitions, %d differing); algebraic lemmas of C03/C04 for the sse2, scalar-math and core-simd tables against common reference formulas; differential: %d identical calls on four builds (default, +fma+avx2, scalar-math, core-simd)' % (same, len(diff), stats['calls']),
         ['rustc/LLVM are assumed not to contract or reorder floating-point operations under +fma,+avx2: this is observed by the differential run, it cannot be modelled', 'interning of translated closures in tools/rs2v'],
